@@ -25,7 +25,7 @@ gin = ginenv.import_gin()
 ID = 'C10'
 LEVEL = 'exploration'
 ISOLATE = True
-BUDGET = {'quick': (8, 150), 'thorough': (16, 4000)}
+BUDGET = {'quick': (16, 150), 'thorough': (16, 4000)}
 RULE = ('shape (as C01) with a generated subset of defaulted parameters defaulting to gin.REQUIRED '
         'and an optional allow/deny list x per-argument placement (omitted / value / REQUIRED, '
         'positional or keyword, **kw names, *args overflow) x bindings over prefix and decoy '
